@@ -483,24 +483,19 @@ def customTy (cfg : Cfg) (gens : List Str) (f : RustField) : Option Str :=
 /-- `not_optional_but_default` -/
 def nod (f : RustField) : Bool := !f.ty.isOptional && f.hasDefault
 
-/-- the names one field line uses that `write_field` itself accounts for: its type's names, the
-`Optional[` wrapped around a defaulted non-`Option`, `Field(` when there is an alias or a default,
-`Annotated[.., BeforeValidator(..), PlainSerializer(..)]` for a custom-translated type — and the two
-translation functions when the type is registered under its own name -/
+/-- the names one field line uses: its type's names, the `Optional[` wrapped around a defaulted
+non-`Option`, `Field(` when there is an alias or a default, and for a custom-translated type
+`Annotated[.., BeforeValidator(..), PlainSerializer(..)]` and the two translation functions named
+there.  (Since the `fix:` commit ab2f0e6 `write_field` registers the unwrapped type for function
+generation whether or not the field is defaulted; before it the functions of a defaulted
+non-`Option` field were a separate list `fieldRisky` the printer did not account for.) -/
 def fieldSafe (E : Ext) (cfg : Cfg) (gens : List Str) (f : RustField) : List Need :=
   typeNeeds cfg gens f.ty ++
   (if nod f then [impOptional] else []) ++
   (if propertyAwareRename E f.id.original != f.id.renamed || (f.ty.isOptional || f.hasDefault) then [impField] else []) ++
   (match customTy cfg gens f with
-   | some t => [impAnnotated, impBefore, impPlain] ++ (if nod f then [] else [.fns t])
+   | some t => [impAnnotated, impBefore, impPlain, .fns t]
    | none => [])
-
-/-- … and the one it does not: a defaulted non-`Option` field of a custom-translated type names the
-translation functions but registers `Optional[<type>]`, for which no functions exist -/
-def fieldRisky (cfg : Cfg) (gens : List Str) (f : RustField) : List Need :=
-  match customTy cfg gens f with
-  | some t => if nod f then [.fns t] else []
-  | none => []
 
 theorem Covered.ite {gens : List Str} {st : St} {c : Bool} {x : Need} (h : c = true → Provides st x) :
     Covered gens st (if c = true then [x] else []) := by
@@ -580,19 +575,14 @@ theorem fieldFacts_spec (E : Ext) (cfg : Cfg) (gens : List Str) (f : RustField) 
     rw [hj] at h2 hA2
     simp only [Outcome.ok.injEq, Prod.mk.injEq] at h2
     rw [← h2.2]
-    have mC := mono_addCustom st2 (if (!f.ty.isOptional && f.hasDefault) = true then s%"Optional[" ++ pt ++ s%"]" else pt)
+    have mC := mono_addCustom st2 pt
     refine ⟨(hm1.trans hmA).trans mC, ?_⟩
     have hct : customTy cfg gens f = some pt := by simp [customTy, hpt, hj]
     simp only [fieldSafe, hct]
     refine (common _ mC).append ?_
     have hA := hA2 rfl
-    refine Covered.cons (mC _ hA.1) (Covered.cons (mC _ hA.2.1) (Covered.cons (mC _ hA.2.2) ?_))
-    cases hn : nod f with
-    | true => exact Covered.nil _ _
-    | false =>
-      have hn' : (!f.ty.isOptional && f.hasDefault) = false := hn
-      simp only [hn', Bool.false_eq_true, if_false]
-      exact Covered.cons (provides_addCustom st2 pt) (Covered.nil _ _)
+    exact Covered.cons (mC _ hA.1) (Covered.cons (mC _ hA.2.1) (Covered.cons (mC _ hA.2.2)
+      (Covered.cons (provides_addCustom st2 pt) (Covered.nil _ _))))
 
 theorem fieldsFacts_spec (E : Ext) (cfg : Cfg) (gens : List Str) : ∀ (fs : List RustField) (st : St) r (st' : St),
     fieldsFacts E cfg gens fs st = .ok (r, st') →
@@ -622,9 +612,6 @@ def structSafe (E : Ext) (cfg : Cfg) (rs : RustStruct) : List Need :=
   (if rs.genericTypes.isEmpty then [] else [impGeneric, impTypeVar]) ++
   (if visiblyRenamed E rs then [impConfigDict] else []) ++
   rs.fields.flatMap (fieldSafe E cfg rs.genericTypes))
-
-def structRisky (cfg : Cfg) (rs : RustStruct) : List Need :=
-  rs.fields.flatMap (fieldRisky cfg rs.genericTypes)
 
 theorem structFacts_spec (E : Ext) (cfg : Cfg) (rs : RustStruct) (st : St) (c : PyClass) (st' : St)
     (h : structFacts E cfg rs st = .ok (c, st')) :
@@ -679,9 +666,6 @@ theorem structFacts_spec (E : Ext) (cfg : Cfg) (rs : RustStruct) (st : St) (c : 
 /-- the classes generated for the struct variants -/
 def innerSafe (E : Ext) (cfg : Cfg) (e : RustEnum) (l : List (Id × List RustField)) : List Need :=
   l.flatMap fun p => structSafe E cfg (anonymousStruct e (innerName e p.1.original) p.1.original p.2)
-
-def innerRisky (cfg : Cfg) (e : RustEnum) (l : List (Id × List RustField)) : List Need :=
-  l.flatMap fun p => structRisky cfg (anonymousStruct e (innerName e p.1.original) p.1.original p.2)
 
 theorem innerFacts_spec (E : Ext) (cfg : Cfg) (e : RustEnum) : ∀ (l : List (Id × List RustField)) (st : St) r (st' : St),
     innerFacts E cfg e l st = .ok (r, st') → Mono st st' ∧ ∀ n ∈ innerSafe E cfg e l, Provides st' n
@@ -750,8 +734,6 @@ def enumSafe (E : Ext) (cfg : Cfg) (e : RustEnum) : List Need :=
      impBaseModel :: impEnum :: ((if e.genericTypes.isEmpty then [] else [impTypeVar]) ++
      e.variants.flatMap (variantSafe cfg e) ++
      (if e.variants.length == 1 then [] else [impUnion])))
-
-def enumRisky (cfg : Cfg) (e : RustEnum) : List Need := innerRisky cfg e (structVariants e)
 
 theorem writeEnum_spec (E : Ext) (cfg : Cfg) (e : RustEnum) (st : St) (text : Str) (st' : St)
     (h : writeEnum E cfg e st = .ok (text, st')) : Mono st st' ∧ ∀ n ∈ enumSafe E cfg e, Provides st' n := by
@@ -832,15 +814,6 @@ def itemSafe (E : Ext) (cfg : Cfg) : RustItem → List Need
       typeNeeds cfg a.genericTypes a.ty
   | .const c => typeNeeds cfg [] c.ty
 
-/-- the names an item's text uses and the printer does *not* account for: the translation
-functions of defaulted non-`Option` fields of a custom-translated type (nothing for an alias any
-more) -/
-def itemRisky (cfg : Cfg) : RustItem → List Need
-  | .struct s => structRisky cfg s
-  | .enum e => enumRisky cfg e
-  | .alias _ => []
-  | .const _ => []
-
 theorem writeItem_spec (E : Ext) (cfg : Cfg) (it : RustItem) (st : St) (text : Str) (st' : St)
     (h : writeItem E cfg it st = .ok (text, st')) : Mono st st' ∧ ∀ n ∈ itemSafe E cfg it, Provides st' n := by
   cases it with
@@ -908,21 +881,45 @@ theorem writeItems_spec (E : Ext) (cfg : Cfg) : ∀ (its : List RustItem) (st : 
     · exact hm2 _ (hp1 n hn)
     · exact hp2 n hn
 
-/-- **helpersUsed (Python)**, the part the printer accounts for -/
+/-- **helpersUsed (Python)**, the names the item texts use -/
 def safe (E : Ext) (cfg : Cfg) (d : ParsedData) : List Need := (itemsOf d).flatMap (itemSafe E cfg)
 
-/-- **helpersUsed (Python)**, the part it does not: the item-level names above, and the name
-`datetime` inside the text of `serialize_datetime_data` / `parse_rfc3339`, which are written
-whenever `datetime` is registered for custom translation -/
-def risky (cfg : Cfg) (d : ParsedData) (st : St) : List Need :=
-  (itemsOf d).flatMap (itemRisky cfg) ++ (if s%"datetime" ∈ st.customJson then [impDatetime] else [])
+/-- **helpersUsed (Python)**, the name `datetime` inside the text of `serialize_datetime_data` /
+`parse_rfc3339`, which are written whenever `datetime` is registered for custom translation
+(whatever Rust type was mapped to it) -/
+def fnsNeeds (st : St) : List Need := if s%"datetime" ∈ st.customJson then [impDatetime] else []
 
 /-- everything the generated text uses on typeshare's account -/
-def used (E : Ext) (cfg : Cfg) (d : ParsedData) (st : St) : List Need := safe E cfg d ++ risky cfg d st
+def used (E : Ext) (cfg : Cfg) (d : ParsedData) (st : St) : List Need := safe E cfg d ++ fnsNeeds st
+
+theorem mono_addDatetimeImport (st : St) : Mono st (addDatetimeImport st) := by
+  unfold addDatetimeImport
+  split
+  · exact mono_addImport _ _ _
+  · exact Mono.refl st
+
+theorem addDatetimeImport_customJson (st : St) : (addDatetimeImport st).customJson = st.customJson := by
+  unfold addDatetimeImport
+  split <;> rfl
+
+/-- the import `generate_types` adds before the header is written (`fix:` commit 062e77e) provides
+the `datetime` the translation functions mention -/
+theorem addDatetimeImport_provides (st : St) : ∀ n ∈ fnsNeeds (addDatetimeImport st), Provides (addDatetimeImport st) n := by
+  intro n hn
+  unfold fnsNeeds at hn
+  rw [addDatetimeImport_customJson] at hn
+  split at hn
+  · rename_i hd
+    simp only [List.mem_singleton] at hn
+    subst hn
+    have hc : st.customJson.contains s%"datetime" = true := List.contains_iff_mem.2 hd
+    simp only [addDatetimeImport, hc, if_true]
+    exact provides_addImport _ _ _
+  · simp at hn
 
 theorem generate_spec (E : Ext) (cfg : Cfg) (d : ParsedData) (st0 : St) (text : Str) (st : St)
     (h : generate E cfg d st0 = .ok (text, st)) :
-    Mono st0 st ∧ (∀ n ∈ safe E cfg d, Provides st n) ∧
+    Mono st0 st ∧ (∀ n ∈ used E cfg d st, Provides st n) ∧
     ∃ body, text = beginFile cfg ++ writeAllImports st ++ writeCustomFns st ++ body := by
   unfold generate at h
   cases ho : Pipeline.generateOrder d with
@@ -934,12 +931,15 @@ theorem generate_spec (E : Ext) (cfg : Cfg) (d : ParsedData) (st0 : St) (text : 
     simp only [Outcome.ok.injEq, Prod.mk.injEq] at h2
     obtain ⟨hm, hp⟩ := writeItems_spec E cfg items st0 body st1 h1
     rw [← h2.2]
-    refine ⟨hm, ?_, body, h2.1.symm⟩
+    refine ⟨hm.trans (mono_addDatetimeImport st1), ?_, body, h2.1.symm⟩
     intro n hn
-    apply hp
-    simp only [safe, List.mem_flatMap] at hn ⊢
-    obtain ⟨it, hit, h⟩ := hn
-    exact ⟨it, (generateOrder_perm d items ho).symm.subset hit, h⟩
+    rcases List.mem_append.1 hn with hn | hn
+    · apply mono_addDatetimeImport
+      apply hp
+      simp only [safe, List.mem_flatMap] at hn ⊢
+      obtain ⟨it, hit, h⟩ := hn
+      exact ⟨it, (generateOrder_perm d items ho).symm.subset hit, h⟩
+    · exact addDatetimeImport_provides st1 n hn
 
 /-- the functions for a registered type are in the text written before the body -/
 theorem writeCustomFns_defines (st : St) (t : Str) (c : CustomFns) (ht : t ∈ st.customJson)
